@@ -37,10 +37,10 @@ Lemma L_rt a b A : 0 <= a < T -> 0 <= b < nstates -> 0 <= A < NS -> 0 <= m_goto 
   rt_sim F m a b [m_goto m b A] = true.
 Proof.
   intros Ha Hb HA Ht. unfold check_redterm in Hrt. rewrite forallb_forall in Hrt.
-  specialize (Hrt a (proj2 (in_zrange0 _ _) Ha)). rewrite forallb_forall in Hrt.
   specialize (Hrt b (proj2 (in_zrange0 _ _) Hb)). rewrite forallb_forall in Hrt.
   specialize (Hrt A (proj2 (in_zrange0 _ _) HA)). cbv zeta in Hrt.
-  rewrite (proj2 (okst_iff _) Ht) in Hrt. exact Hrt.
+  rewrite (proj2 (okst_iff _) Ht) in Hrt. rewrite forallb_forall in Hrt.
+  exact (Hrt a (proj2 (in_zrange0 _ _) Ha)).
 Qed.
 
 Lemma range_parts :
